@@ -19,7 +19,7 @@ import (
 func init() {
 	Props["C15"] = &harness.Prop{
 		ID:             "C15",
-		Rule:           "histories: alphabet of 18 inputs (1005, 1006, MSM4 and MSM7 of GPS, Galileo, GLONASS and BeiDou with cells, four MSM messages whose cell masks have the same value and length but the shapes 2x3, 3x2, 1x6 and 6x1, 1230, an unknown type, non-RTCM text, a CRC-broken frame); every sequence of length <=3 (quick) / <=4 (thorough) through ONE handler at both log levels; each element is decoded (Analyse) and displayed twice; oracle: decoded structure deep-equal and text (without the MSM time lines) equal to those of a fresh handler, second display identical, raw bytes unchanged; value copies of a delivered message: what consumer A does with its copy (String, Analyse, field assignments) leaves consumer B's copy deep-equal to a pristine one. concurrency: two (thorough: also three) threads decoding and displaying frames on separate handlers and on value copies of one message, with scheduling points at every function and loop entry of rtcm/handler, rtcm/utils, rtcm/header and the six MSM and two station packages; every schedule with <=1 (quick) / <=2 (thorough) preemptions; oracle: every result equals the sequential baseline. Non-trivial = histories of length >=2 / distinct schedule traces",
+		Rule:           "histories: alphabet of 18 inputs (1005, 1006, MSM4 and MSM7 of GPS, Galileo, GLONASS and BeiDou with cells, four MSM messages whose cell masks have the same value and length but the shapes 2x3, 3x2, 1x6 and 6x1, 1230, an unknown type, non-RTCM text, a CRC-broken frame); every sequence of length <=3 (quick) / <=4 (thorough) through ONE handler at both log levels; each element is decoded (Analyse) and displayed twice; oracle: decoded structure deep-equal and text (without the MSM time lines) equal to those of a fresh handler, second display identical, raw bytes unchanged, and every message decoded earlier in the history and still held is displayed again and deep-compared after each later frame (nothing may be shared between messages); value copies of a delivered message: what consumer A does with its copy (String, Analyse, field assignments) leaves consumer B's copy deep-equal to a pristine one. concurrency: two (thorough: also three) threads decoding and displaying frames on separate handlers and on value copies of one message, with scheduling points at every function and loop entry of rtcm/handler, rtcm/utils, rtcm/header and the six MSM and two station packages; every schedule with <=1 (quick) / <=2 (thorough) preemptions; oracle: every result equals the sequential baseline. Non-trivial = histories of length >=2 / distinct schedule traces",
 		Assumptions:    []string{"interleavings inside unsynchronised code are explored at function/loop-entry granularity; 'no data race' at the memory-model level is outside a cooperative scheduler and only touched by the auxiliary -race pass", "the two MSM time lines ('Time ...', 'Start of ... week ...') are removed before comparing texts, as the statement excludes them"},
 		Pre:            c15Histories,
 		Scenarios:      c15Scenarios,
@@ -85,6 +85,7 @@ func stripTimeLines(s string) string {
 }
 
 type c15Result struct {
+	msg      *handler.Message
 	typ      int
 	text     string
 	readable interface{}
@@ -116,7 +117,7 @@ func decodeDisplay(h *handler.Handler, in []byte) (res c15Result, fault string) 
 	if !bytes.Equal(m.RawData, orig[:len(m.RawData)]) || !bytes.Equal(buf, orig) {
 		return res, "raw bytes modified by decoding or display"
 	}
-	return c15Result{m.MessageType, stripTimeLines(t1), m.Readable, m.ErrorMessage}, ""
+	return c15Result{m, m.MessageType, stripTimeLines(t1), m.Readable, m.ErrorMessage}, ""
 }
 
 func sameResult(a, b c15Result) string {
@@ -161,8 +162,12 @@ func c15Histories(r *ev.Run) {
 			base[i] = res
 		}
 		var n, tr int64
-		var rec func(h handler.Handler, hist []int)
-		rec = func(h handler.Handler, hist []int) {
+		type kept struct {
+			m   *handler.Message
+			idx int
+		}
+		var rec func(h handler.Handler, hist []int, held []kept)
+		rec = func(h handler.Handler, hist []int, held []kept) {
 			if len(hist) == depth {
 				return
 			}
@@ -179,14 +184,30 @@ func c15Histories(r *ev.Run) {
 				} else if d := sameResult(res, base[i]); d != "" {
 					fail("result-depends-on-earlier-frames: "+d, lvl, names, fmt.Sprintf("frame %s after %v", alpha[i].name, names[:len(names)-1]))
 				}
+				// messages decoded earlier and still held must not change when later
+				// frames are decoded (no buffers or tables shared between messages)
+				for hi, k := range held {
+					var txt string
+					cl, site, pn := guardM(func() { txt = stripTimeLines(k.m.String()) })
+					tr++
+					if pn {
+						fail("panic re-displaying an earlier message "+cl+"@"+site, lvl, names, fmt.Sprintf("message %d (%s) after decoding %s", hi+1, alpha[k.idx].name, alpha[i].name))
+					} else if txt != base[k.idx].text || !reflect.DeepEqual(k.m.Readable, base[k.idx].readable) {
+						fail("earlier-message-changed-by-decoding-a-later-frame", lvl, names, fmt.Sprintf("message %d (%s) differs after decoding %s", hi+1, alpha[k.idx].name, alpha[i].name))
+					}
+				}
 				n++
 				if len(hist)+1 >= 2 {
 					r.DistinctN++
 				}
-				rec(child, append(append([]int{}, hist...), i))
+				nh := held
+				if fault == "" && res.msg != nil {
+					nh = append(append([]kept{}, held...), kept{res.msg, i})
+				}
+				rec(child, append(append([]int{}, hist...), i), nh)
 			}
 		}
-		rec(*handler.New(T0, lvl), nil)
+		rec(*handler.New(T0, lvl), nil, nil)
 		r.Count(n, 0, tr*4, n)
 		// value copies handed to two consumers
 		for i, in := range alpha {
@@ -293,7 +314,7 @@ func c15Scenarios(tier string) []*mcrt.Scenario {
 								m := cp
 								handler.Analyse(&m)
 								t1 := m.String()
-								obs.results[key] = c15Result{m.MessageType, stripTimeLines(t1), m.Readable, m.ErrorMessage}
+								obs.results[key] = c15Result{nil, m.MessageType, stripTimeLines(t1), m.Readable, m.ErrorMessage}
 								continue
 							}
 							res, fault := decodeDisplay(h, in.bytes)
@@ -333,4 +354,15 @@ func c15Scenarios(tier string) []*mcrt.Scenario {
 		})
 	}
 	return scs
+}
+
+// guardM runs f and reports a panic as (class, site, true).
+func guardM(f func()) (class, site string, panicked bool) {
+	defer func() {
+		if p := recover(); p != nil {
+			class, site, panicked = firstLine(fmt.Sprint(p)), "", true
+		}
+	}()
+	f()
+	return
 }
